@@ -175,9 +175,11 @@ type env struct {
 	flapWg     sync.WaitGroup
 	txInvSeen  atomic.Int64
 	notes      []string
-	api        *apiState // peer-state API family (api.go); nil otherwise
-	rsv        *resolver // Config.NameResolver of the scenario (API family / host names); nil otherwise
-	rej        *rejState // rebroadcast-answered family (rebroad.go); nil otherwise
+	api        *apiState  // peer-state API family (api.go); nil otherwise
+	rsv        *resolver  // Config.NameResolver of the scenario (API family / host names); nil otherwise
+	rej        *rejState  // rebroadcast-answered family (rebroad.go); nil otherwise
+	pile       *pileState // pile-up family (pileup.go); nil otherwise
+	pileSent   int
 }
 
 func (e *env) note(f string, a ...any) {
@@ -216,6 +218,20 @@ func (sp *simPeer) mutate(_ *netsim.Peer, req wire.Message, honest []wire.Messag
 			}
 		}
 	case *wire.MsgGetCFHeaders:
+		if ps := sp.e.pile; ps != nil {
+			// Pile-up family: as below until all block headers are in; then
+			// the answers of the multi-batch round wait behind the gate (by
+			// then a reorganisation may have taken the block header tip back).
+			if !ps.hasStarted() {
+				if _, h, err := sp.e.w.Svc.BlockHeaders.ChainTip(); err != nil || int(h) < sp.e.p.ChainLen {
+					return nil
+				}
+			}
+			if g, ok := req.(*wire.MsgGetCFHeaders); ok && len(honest) > 0 {
+				ps.onGetCFHeaders(g)
+			}
+			return honest
+		}
 		if sp.e.p.HoldCFUntilHeaders {
 			// Same steering for the first filter-header batch: answered only
 			// once all block headers are in (the client re-asks after its
@@ -1015,6 +1031,9 @@ func Run(p Plan, res *l2.Result) {
 			res.Fingerprint += fmt.Sprintf("|rebroadcast=%s answer=%s", p.Rej.Expect(), answerBucket(p.Rej.AnswerMs))
 			e.reportRebroadAns(reached && oc.stop != "not-called")
 		}
+		if p.Pile != nil {
+			res.Fingerprint += fmt.Sprintf("|pileup %s outstanding=%s", p.Pile.Shape(), bucket(e.pileSent))
+		}
 		res.Nontrivial = reached && oc.stop != "not-called"
 		res.Count("state/"+p.State, 1)
 		if reached {
@@ -1089,6 +1108,11 @@ func Run(p Plan, res *l2.Result) {
 		// Whatever way the scenario ends: no peer reaction stays held.
 		defer func() { e.rej.open(); e.rej.wg.Wait() }()
 	}
+	if p.Pile != nil {
+		e.pile = newPileState(e)
+		// Whatever way the scenario ends: no answer stays held.
+		defer func() { e.pile.openFirst(); e.pile.openGate() }()
+	}
 	neutrino.VerifSetPointHook(e.hook.fn)
 	defer neutrino.VerifSetPointHook(nil)
 
@@ -1162,6 +1186,8 @@ func Run(p Plan, res *l2.Result) {
 		time.Sleep(time.Duration(w.Rng.Intn(3000)) * time.Microsecond)
 		reached = true
 		e.note("just started")
+	} else if p.Pile != nil {
+		reached, parkedPoint = e.setupPile()
 	} else if p.MidSync() {
 		if p.Point() != "" {
 			reached = waitTrigger(e.hook.parked, "parked at "+p.Point())
